@@ -864,6 +864,15 @@ def gen_call(rng, fam, kn, defined, cname=None, method=None, allow_bad=True):
             kw["by_alias"] = rng.random() < 0.7
         if "ADD_SERIALIZATION_CONTEXT" in cgo and rng.random() < 0.5:
             kw["context"] = {"c": 1}
+    if method in ("to_jsonb", "to_json"):
+        # call-time orjson_options (S62): chosen without drawing from rng, so every
+        # other generated choice of a seed is what it was before this argument existed
+        import zlib
+        h = zlib.crc32(("%s:%s:%d:%d" % (cname, method, len(defined), len(fam.order))).encode())
+        if h % 2 == 0:
+            import orjson
+            kw["orjson_options"] = (orjson.OPT_SORT_KEYS, orjson.OPT_INDENT_2,
+                                    orjson.OPT_SORT_KEYS | orjson.OPT_INDENT_2)[(h >> 1) % 3]
     if kw:
         op["kw"] = kw
     t = ["cls", cname]
